@@ -83,15 +83,30 @@ func registerModels(e *Engine) {
 		in.call(fr, a[1], nil)
 		return nil
 	})
+	// sync.Pool: Get may return any item previously Put, or a new one.  The model hands back
+	// the most recently Put item (what the runtime does on one P): the choice that exposes code
+	// which keeps using an item after putting it back.
 	e.reg("(*sync.Pool).Get", func(in *Interp, fr *frame, fn *ssa.Function, a []Val) Val {
 		p := nilCheck(in, a[0])
+		key := fmt.Sprintf("pool%p", p)
+		if items, _ := in.side[key].([]Val); len(items) > 0 {
+			v := items[len(items)-1]
+			in.side[key] = items[:len(items)-1]
+			return v
+		}
 		nf := *fieldCell(p, recvT(fn), "New")
 		if f, ok := nf.(*ssa.Function); ok && f == nil {
 			return Iface{}
 		}
 		return in.call(fr, nf, nil)
 	})
-	e.reg("(*sync.Pool).Put", noop)
+	e.reg("(*sync.Pool).Put", func(in *Interp, fr *frame, fn *ssa.Function, a []Val) Val {
+		p := nilCheck(in, a[0])
+		key := fmt.Sprintf("pool%p", p)
+		items, _ := in.side[key].([]Val)
+		in.side[key] = append(items, a[1])
+		return nil
+	})
 	e.reg("(*sync.WaitGroup).Add", func(in *Interp, _ *frame, fn *ssa.Function, a []Val) Val {
 		key := fmt.Sprintf("wg%p", a[0].(*Val))
 		n, _ := in.side[key].(int64)
